@@ -44,16 +44,27 @@ func blockedInModule(dump, module string) []string {
 		if !(strings.Contains(state, "Mutex.Lock") || strings.Contains(state, "RWMutex") || strings.Contains(state, "semacquire")) {
 			continue
 		}
+		// the lock that is waited for is the module's only if the module's own code asked for it: the first frame below
+		// the runtime and package sync (the caller of Lock / Wait) has to be a function of the module.  A goroutine that the
+		// module started and that waits inside a dependency (the mDNS responder, net/http) is that dependency's business.
 		top := ""
 		for _, l := range lines[1:] {
 			l = strings.TrimSpace(l)
-			if strings.HasPrefix(l, module) && !strings.HasPrefix(l, module+"/verifhook") {
-				top = l
-				if i := strings.LastIndex(top, "("); i > 0 {
-					top = top[:i]
-				}
-				break
+			if l == "" || strings.HasPrefix(l, "/") || strings.HasPrefix(l, "created by") {
+				continue // file:line rows
 			}
+			if strings.HasPrefix(l, "sync.") || strings.HasPrefix(l, "runtime.") || strings.HasPrefix(l, "internal/") || strings.HasPrefix(l, "sync/atomic.") {
+				continue
+			}
+			if strings.HasPrefix(l, module+"/") || strings.HasPrefix(l, module+".") {
+				if !strings.HasPrefix(l, module+"/verifhook") {
+					top = l
+					if i := strings.LastIndex(top, "("); i > 0 {
+						top = top[:i]
+					}
+				}
+			}
+			break
 		}
 		if top != "" {
 			out = append(out, fmt.Sprintf("goroutine %s [%s] in %s", m[1], state, top))
